@@ -394,6 +394,8 @@ func c11Panic(cs panicCase) string {
 		called = vr == 'v' && verb != "%#v" || vr == 's' || vr == 'x'
 	case 4:
 		called = verb == "%#v"
+	case 5:
+		called = vr == 'v' || vr == 's' || vr == 'x' // the safe message is a string: only string verbs use it
 	}
 	if cs.Nest == 1 && verb == "%#v" {
 		pre, post = "pre []interface {}{", "} post"
